@@ -4,6 +4,7 @@ import Ivg.Lemmas.GenSel
 import Ivg.Model.Arc
 import Ivg.Gen.Tie.EncoderFields
 import Ivg.Gen.Tie.RendererFields
+import Ivg.Gen.Tie.LoggerForwards
 import Ivg.Obligations
 /-!
 # C07 — selector clause: the Encoder and the Renderer report the same CSEL / NSEL
@@ -199,7 +200,11 @@ theorem reads_report (e : Encoder) :
 
 * "up to coordinate quantisation" is made precise as the operand map `Q hi` (C01/C08); how far the
   pixels move under that map (continuity of the rasteriser) is not a statement about this repository.
-* `DestinationLogger` (a logging pass-through destination) is exercised by the correspondence runs only.
+* `DestinationLogger` (logger.go, a logging pass-through Destination) is not part of the executable model: that
+  each of its 26 methods makes exactly one call on the wrapped Destination — the same method with the same
+  arguments in order, guarded only by the nil test — is the regenerated fact `Gen.Tie.logger_forwards_tie`
+  (syntactic, from the Go source on every run); the harness additionally compares the calls received behind a
+  logger with the calls made (`C07.logger-forwards`).
 * That `vmSel` is what the DECODER holds is by reading the format specification; the decoder model
   (`Ivg/Model/Decoder.lean`) delivers calls and keeps no selector state of its own.
 -/
@@ -211,4 +216,5 @@ end Ivg.Props.C07
   Ivg.Props.C07.accepted_of_final, Ivg.Props.C07.both_follow_vm, Ivg.Props.C07.vm_mod64,
   Ivg.Props.C07.renderer_selectors_6bit, Ivg.Props.C07.encoder_selectors_6bit, Ivg.Props.C07.reads_report,
   Ivg.Props.C07.render_via_bytes, Ivg.Props.C07.render_direct_eq_via_bytes, Ivg.Props.C07.renderer_masks, Ivg.Props.C07.generator_same_calls,
-  Ivg.Gen.Tie.encoder_fields_tie, Ivg.Gen.Tie.renderer_fields_tie]
+  Ivg.Gen.Tie.encoder_fields_tie, Ivg.Gen.Tie.renderer_fields_tie,
+  Ivg.Gen.Tie.logger_forwards_tie, Ivg.Gen.Tie.logger_methods_tie]
